@@ -19,6 +19,7 @@ const (
 func init() {
 	register("C04", func(c *core.Ctx, tier string) {
 		mapSentinelNotZeroSize(c, "C04.9")
+		discardCompletesBufferedClose(c, "C04.10")
 		serverEffects(c, "C04.8")
 		c04Writers(c)
 		c04Pairing(c)
